@@ -31,6 +31,7 @@ type e2eRig struct {
 	dialer   *vnet.Dialer
 	pub      [32]byte
 	adminUID []byte
+	cdnSNI   []string // server names seen by the in-process CDN edge (startCDN)
 	// wrapAccepted, if set, may replace the i-th accepted connection (fault injection on the server's side of it)
 	wrapAccepted func(i int, c net.Conn) net.Conn
 }
